@@ -119,13 +119,77 @@ def gen(ctx):
     return cases, expect
 
 
+def idle_cases(ctx):
+    """Complete responses, then a peer that stays silent with the transport open (no end of stream): each response must be returned
+    without another read — a read there blocks forever.  Streams whose bytes end exactly where the receive buffer (4096 bytes and
+    its doublings) ends, and ordinary ones; the model answers the same stream ending in EOF, of which the first n outcomes count."""
+    rng = ctx.rng
+    streams = [st for st, _ in g.exact_fill_streams() if st.endswith(b"OK\n")]
+    for cap in (4096, 8192, 16384, 32768):
+        for d in (-1, 0, 1):
+            pl = cap + d - len(b"binary: NNNNN\n\nOK\n")
+            streams.append(b"binary: " + str(pl).encode().rjust(5, b"0") + b"\n" + bytes((i * 7) % 256 for i in range(pl)) + b"\nOK\n")
+            streams.append(b"a: b\nOK\n" + b"k: " + b"v" * (cap + d - 8 - 3 - 1 - 3) + b"\nOK\n")
+    for _ in range(10 if ctx.tier == "quick" else 200):
+        streams.append(b"".join(g.enc_response(g.gen_response(rng)) for _ in range(rng.choice([1, 2, 3]))))
+    out = []
+    for st in streams:
+        for seg in (g.seg_whole(st), g.seg_random(rng, st, maxlen=5000), [st[i:i + 4096] for i in range(0, len(st), 4096)]):
+            for fl in ("b", "a"):
+                out.append((fl, seg))
+    return out
+
+
+def run_idle(ctx):
+    items = idle_cases(ctx)
+    eof = [g.case_line("recv", fl, 0, "eof", seg) for fl, seg in items]
+    model = ctx.run_model(eof) if ctx.model_ok else None
+    if model is None:
+        return [], []
+    cases, want = [], []
+    for (fl, seg), m in zip(items, model):
+        outs = m.split(" | ")
+        n = 0
+        while n < len(outs) and outs[n].startswith("resp["):
+            n += 1
+        if n:
+            cases.append(g.case_line("recv", fl, n, "idle", seg))
+            want.append(" | ".join(outs[:n]))
+    impl = ctx.run_impl(cases)
+    fails = []
+    for c, o, w in zip(cases, impl, want):
+        if o != w:
+            what = o
+            if "PANIC" in o:
+                try:
+                    what = "PANIC " + unhexs(o.split(" ")[-1]).decode(errors="replace")
+                except Exception:
+                    pass
+            fails.append(Failure(c, f"{describe(c)[:300]}: the peer sent {w.count('resp[')} complete response(s) and then stays silent (no end of stream); "
+                                    f"receive must return each of them without reading further.\n  got      {what[:400]}\n  expected {w[:400]}", extra={"idle": w}))
+    return cases, fails
+
+
 def run(ctx, only=None):
+    if only is not None and only and only[0].split(" ")[3] == "idle":
+        impl = ctx.run_impl(only)
+        bad = 0
+        for c, o in zip(only, impl):
+            print("case:", describe(c)[:400], "\nimpl:", o[:600])
+            if "PANIC" in o or not all(x.startswith("resp[") for x in o.split(" | ")):
+                bad += 1
+                print(f"VIOLATION property=C09 replay=(this case) receive read past the complete responses of a silent peer (or failed): {o[:200]}")
+        return 1 if bad else 0
     if only is not None:
         cases, expect = only, [None] * len(only)
     else:
         cases, expect = gen(ctx)
     impl, model, dis = run_cases(ctx, cases)
     fails = []
+    idle = []
+    if only is None:
+        idle, ifails = run_idle(ctx)
+        fails += ifails
     for c, out, exp in zip(cases, impl, expect):
         if "PANIC" in out:
             msg = out.split(" ")[-1]
@@ -145,15 +209,16 @@ def run(ctx, only=None):
             fails.append(Failure(c, f"expected {want} terminal outcomes (1 + {want - 1} further calls), got {len(term)}: {out[:300]}"))
     if only is not None:
         print_replay(cases, impl, model, fails)
-    dist = {"cases": len(cases), "edge_cases": len(EDGE) + len(EDGE_CONNECT),
+    dist = {"cases": len(cases), "silent_peer_cases": len(idle), "edge_cases": len(EDGE) + len(EDGE_CONNECT),
             "first_outcome": {k: sum(1 for o in impl if o.split(" | ")[0].startswith(k)) for k in ("resp[", "eof", "ueof", "invalid", "io", "connect:", "connected:")}}
     nontrivial = set(cases)
     return finish(
-        ctx, evaluations=len(cases), distinct_nontrivial=len(nontrivial),
+        ctx, evaluations=len(cases) + len(idle), distinct_nontrivial=len(nontrivial) + len(idle),
         rule="the property's named edge cases with their demanded outcome; random protocol-flavoured bytes; generated streams with 1..4 "
              "flips/insertions/deletions/truncations; corrupted greetings; every case whole, randomly split and byte-at-a-time, both flavours, "
              "under catch_unwind with a read counter, receive called 3 more times after the first error (thorough: all strings of length <= 3 "
-             "over 12 protocol bytes, all single-byte corruptions of 20 seed streams); every case is non-trivial, distinct = distinct case lines",
+             "over 12 protocol bytes, all single-byte corruptions of 20 seed streams); complete responses followed by a SILENT peer (no end of "
+             "stream: a read past them blocks forever and is reported), sizes ending exactly at 4096/8192/16384/32768 bytes and one off; every case is non-trivial, distinct = distinct case lines",
         samples=[describe(cases[0])[:300], describe(cases[len(cases) // 2])[:300]], distribution=dist,
         oracle_failures=fails, disagreements=dis,
     )
